@@ -5,6 +5,7 @@
 package main
 
 import (
+	"strings"
 	"time"
 
 	. "verifharness/common"
@@ -15,6 +16,7 @@ import (
 const modelMax = 5000
 
 func emitCase(emit Emit, c editops.ECase, withModel bool) {
+	emitTables(emit, c)
 	toks := editops.Tokens(c.Ops)
 	emit("P", "p_c03", append([]string{H(c.Img), c.Expect, c.Touched}, toks...)...)
 	if withModel && len(c.Img) <= modelMax {
@@ -59,7 +61,18 @@ func gen(r *Rng, tier string, emit Emit) {
 			fvp = "1"
 		}
 		t := editops.GenRO(rr, reg).Target
+		emitTables(emit, editops.ECase{Img: img, Comp: editops.RegionHasCompressed(reg)})
 		emit("C", "find", H(img), fvp, H([]byte(t)))
+		// a pattern: FindFilePredicate selects exactly the files it matches in full
+		pat, set := editops.GenPatternFor(rr, reg)
+		if set != nil {
+			var hs []string
+			for _, x := range set {
+				hs = append(hs, H([]byte(x)))
+			}
+			emit("C", "findx", H(img), H([]byte(pat)), strings.Join(hs, ","))
+			emit("P", "p_find_full", H(img), H([]byte(pat)), H([]byte(editops.FindExpect(reg, pat))))
+		}
 	}
 	// GUID text form
 	for it := 0; it < nguid; it++ {
@@ -104,8 +117,18 @@ func gen(r *Rng, tier string, emit Emit) {
 	})
 }
 
+func emitTables(emit Emit, c editops.ECase) {
+	if !c.Comp {
+		return
+	}
+	for _, t := range editops.CodecTables(c.Img, c.Ops) {
+		emit("T", "codec", t.Dir, t.Kind, t.In, t.Out)
+	}
+}
+
 func main() {
 	CaseTimeout = 20 * time.Second
+	editops.Enc = editops.FianoEnc
 	editops.RegisterAll()
 	Main(gen)
 }
